@@ -129,6 +129,24 @@ func runC11(ci interface{}) Result {
 			}
 		}
 	}
+	// once Bar.Wait has returned the bar is in its final state: exactly one holds
+	waitedAt := map[int]int{}
+	for i, st := range sc.Steps {
+		if st.Op == "barwait" {
+			if _, ok := waitedAt[st.Bar]; !ok {
+				waitedAt[st.Bar] = i
+			}
+		}
+	}
+	for _, g := range tr.Gets {
+		if at, ok := waitedAt[g.Bar]; ok && g.Step > at {
+			r.Classes = append(r.Classes, "getters-after-bar-wait")
+			if g.Completed == g.Aborted {
+				r.Err, r.Kind = fmt.Errorf("bar %d: Bar.Wait returned (step %d), then at step %d the bar reports completed=%v aborted=%v (exactly one must hold)", g.Bar, at, g.Step, g.Completed, g.Aborted), "after-bar-wait"
+				return r
+			}
+		}
+	}
 	// what the frames show, frame by frame
 	shown := map[int][]c11Obs{}
 	for k, f := range tr.Frames() {
